@@ -1399,3 +1399,181 @@ def _c14(fb, rep):
 
 
 RULES['C14'] = _c14
+
+
+# ================================================================================================ tenth batch (F133 - F140)
+def c20d(fb, rep):
+    """R20.8: an array allocated with new[] inside a function of the C interface and held in a LOCAL pointer is released (delete[]) on every path to the
+    function's exit, unless the pointer itself is returned / handed to the caller (SoPlex_getPrimalRationalString, SoPlex_objValueRationalString return the
+    string).  (F135)"""
+    rep.rule('R20.8', 'C interface: memory from new held in a local pointer is deleted on every path unless the pointer is returned to the caller', floor=4)
+    k = 0
+    for f in sorted(fb.funcs.values(), key=lambda g: (g.file, g.line)):
+        if not f.nodes or not f.file.endswith('soplex_interface.cpp'):
+            continue
+        g = None
+        for n in f.nodes:
+            if n.k != 'CXXNewExpr':
+                continue
+            par = f.parent_of(n)
+            while par is not None and par.k in ('ImplicitCastExpr', 'ParenExpr', 'ExprWithCleanups'):
+                par = f.parent_of(par)
+            name = None
+            if par is not None and par.k == 'VarDecl':
+                name = par.n if isinstance(par.n, str) else par.short
+            elif par is not None and par.k == 'BinaryOperator' and par.o == '=' and strip(par.kids[0]).k == 'DeclRefExpr':
+                name = strip(par.kids[0]).short
+            if not name:
+                continue
+            name = str(name).split('::')[-1]
+            k += 1
+            returned = any(x.k == 'ReturnStmt' and x.c and render(strip(x.kids[0])) == name for x in f.nodes)
+            if returned:
+                rep.ok('R20.8', '%s|%s' % (f.short, name), '%s:%d' % (f.file, n.l), 'returned to the caller', nontrivial=False)
+                continue
+            if g is None:
+                g = Graph(f, None)
+            ok, path = g.must_pass(lambda x: x.k == 'CXXDeleteExpr' and name in render(x), start=g.block_of(n))
+            rep.check(ok, 'R20.8', '%s|%s' % (f.short, name), '%s:%d' % (f.file, n.l), 'delete[] on every path',
+                      '%s allocates `%s` with new[] and has a path to its exit without delete[]: every call leaks the array (and the GMP limbs of its rationals)' % (f.short, name))
+    if k < 4:
+        raise AnalysisBroken('R20.8: only %d local new[] arrays found in the C interface' % k)
+
+
+_c20a = RULES['C20']
+
+
+def _c20(fb, rep):
+    _c20a(fb, rep)
+    c20d(fb, rep)
+
+
+RULES['C20'] = _c20
+
+
+def c14b(fb, rep):
+    """R14.8: writeBasisFile() hands the job to the floating-point solver (which writes ITS basis) only if this object has a basis: the forwarding call is
+    governed by _hasBasis / hasBasis().  (F134)"""
+    rep.rule('R14.8', 'writeBasisFile(): the solver\'s own basis is written only if the object has a basis', floor=1)
+    f = fb.one(C + '::writeBasisFile')
+    fw = [n for n in f.nodes if n.k == 'CXXMemberCallExpr' and n.short == 'writeBasisFile' and n.obj() is not None and render(strip(n.obj())).replace('this->', '') == '_solver']
+    if not fw:
+        raise AnalysisBroken('R14.8: writeBasisFile() no longer forwards to _solver.writeBasisFile()')
+    for n in fw:
+        conds = [render(a.kid('cond')) for a in f.ancestors(n) if a.k == 'IfStmt' and a.kid('cond') is not None and a.kid('then') is not None and any(x.i == n.i for x in a.kid('then').walk())]
+        ok = any(re.search(r'\b_hasBasis\b|\bhasBasis\(\)', c) for c in conds)
+        rep.check(ok, 'R14.8', 'writeBasisFile|forward', '%s:%d' % (f.file, n.l), 'under %s' % conds[:1],
+                  'the solver\'s basis is written under %s only: after a solve that discarded the basis (hasBasis() false, getBasis() = slack basis) the file holds the solver\'s stale '
+                  'basis, not what the object reports' % (conds[:1] or 'no condition'))
+
+
+_c14b0 = RULES['C14']
+
+
+def _c14x(fb, rep):
+    _c14b0(fb, rep)
+    c14b(fb, rep)
+
+
+RULES['C14'] = _c14x
+
+
+def c13b(fb, rep):
+    """R13.18: the gz-capable input stream throws from its constructor (missing file, directory) and from reads on damaged data; the readers are written for
+    a stream that reports through its state.  No function constructs an spxifstream directly from a file name - the stream is opened through
+    spxOpenInputFile(), the one place that converts the exceptions.  (F137)"""
+    rep.rule('R13.18', 'input files are opened through spxOpenInputFile(), never by constructing spxifstream from a name', floor=3)
+    k = 0
+    opens = 0
+    for f in sorted(fb.funcs.values(), key=lambda g: (g.file, g.line, g.name)):
+        if not f.nodes or not f.file.startswith('/') or '/src/' not in f.file or '/external/' in f.file:
+            continue
+        for n in f.nodes:
+            if n.k == 'CallExpr' and n.short == 'spxOpenInputFile':
+                opens += 1
+                k += 1
+                rep.ok('R13.18', '%s|spxOpenInputFile#%d' % (f.short, k), '%s:%d' % (f.file, n.l), 'opened through the helper', nontrivial=False)
+            if n.k == 'VarDecl' and n.t and re.search(r'(spxifstream|zstr::ifstream)\b', n.t) and n.c:
+                ctor = [x for x in n.walk() if x.k == 'CXXConstructExpr']
+                if ctor and ctor[0].args():
+                    k += 1
+                    rep.bad('R13.18', '%s|%s#%d' % (f.short, render(n)[:30], k), '%s:%d' % (f.file, n.l),
+                            '`%s` constructs the stream from a file name: for a missing file, a directory or a damaged gz stream the constructor / the reads throw and the documented '
+                            '"returns false" of the reader never happens (the binary terminates)' % render(n)[:60])
+    if opens < 3:
+        raise AnalysisBroken('R13.18: only %d calls of spxOpenInputFile found' % opens)
+
+
+_c13b0 = RULES['C13']
+
+
+def _c13x(fb, rep):
+    _c13b0(fb, rep)
+    c13b(fb, rep)
+
+
+RULES['C13'] = _c13x
+
+
+def c08(fb, rep):
+    """R08.12: SPxMainSM claims UNBOUNDED / DUAL_INFEASIBLE from the sign of an objective coefficient only if that coefficient exceeds the dual feasibility
+    tolerance: every `return UNBOUNDED` (or DUAL_INFEASIBLE) is governed by a condition that involves opttol().  (F138)
+    R08.13: inside unsimplify() all vectors are in minimisation form: no PostStep::execute() branches on m_maxSense.  (F139)
+    R08.14: FixVariablePS::execute() consults the sign of the reduced cost when it labels the variable (bounds that agree within the tolerance).  (F140)"""
+    SM = [f for f in fb.funcs.values() if f.nodes and f.name.startswith('soplex::SPxMainSM<double>::')]
+    rep.rule('R08.12', 'SPxMainSM: a verdict UNBOUNDED / DUAL_INFEASIBLE is governed by a comparison that uses the dual feasibility tolerance', floor=6)
+    # duplicateCols never fires (m_dupCols[..].add(k, 0.0) adds nothing, see DESIGN section 6): its raw objDif tests cannot be reached with parallel columns
+    ACC = {'duplicateCols': 'dead reduction: the classes of parallel columns are never filled (add(k, 0.0) adds nothing)'}
+    k = 0
+    for f in sorted(SM, key=lambda g: g.line):
+        for n in f.nodes:
+            if n.k != 'ReturnStmt' or not n.c or not re.search(r'\b(UNBOUNDED|DUAL_INFEASIBLE)\b', render(n)):
+                continue
+            conds = []
+            for a in f.ancestors(n):
+                if a.k == 'IfStmt' and a.kid('cond') is not None:
+                    conds.append(render(a.kid('cond')))
+            if not conds:
+                continue          # forwarding the verdict of a callee
+            k += 1
+            ok = any('opttol()' in c for c in conds)
+            acc = ACC.get(f.short)
+            rep.check(ok or acc is not None, 'R08.12', '%s|return#%d' % (f.short, k), '%s:%d' % (f.file, n.l), 'opttol() in the governing conditions' if ok else 'accepted: %s' % acc,
+                      '%s returns %s under (%s): the sign of an objective coefficient that presolve itself has updated decides without the dual tolerance - a rounding residue of 2e-16 '
+                      'made an LP with optimum -6 "unbounded"' % (f.short, render(n)[:30], ' && '.join(c[:40] for c in conds[:2])))
+    if k < 6:
+        raise AnalysisBroken('R08.12: only %d guarded UNBOUNDED / DUAL_INFEASIBLE returns found in SPxMainSM' % k)
+    rep.rule('R08.13', 'SPxMainSM post steps: execute() never branches on the objective sense', floor=12)
+    k = 0
+    for f in sorted(SM, key=lambda g: g.line):
+        if f.short != 'execute':
+            continue
+        k += 1
+        uses = [n for n in f.nodes if n.k == 'MemberExpr' and re.search(r'[mM]axSense|[mM]inSense|m_sense', n.short or '')]
+        rep.check(not uses, 'R08.13', f.name.replace('soplex::SPxMainSM<double>::', '')[:50], f.where(), 'no sense test',
+                  '%s reads %s (line %d): unsimplify() negates dual and reduced costs on entry, every vector inside a post step is in minimisation form, a sense switch inverts the test '
+                  'for maximisation problems' % (f.name.split('::')[-2], uses[0].short if uses else '', uses[0].l if uses else 0))
+    if k < 12:
+        raise AnalysisBroken('R08.13: only %d PostStep::execute bodies found' % k)
+    rep.rule('R08.14', 'FixVariablePS::execute(): the reduced cost decides the side of a variable whose bounds agree within the tolerance', floor=1)
+    fx = [f for f in SM if f.short == 'execute' and 'FixVariablePS' in f.name]
+    if not fx:
+        raise AnalysisBroken('R08.14: FixVariablePS::execute not found')
+    f = fx[0]
+    st = [n for n in f.nodes if n.k in ('BinaryOperator', 'CXXOperatorCallExpr') and n.o == '=' and re.match(r'\(?cStatus\[', render(n.kids[0] if n.k == 'BinaryOperator' else n.args()[0]))]
+    rc = [n for n in f.nodes if n.k == 'BinaryOperator' and n.o in ('<', '>', '<=', '>=') and re.search(r'\br\[m_j\]', render(n)) and not f.in_assert(n)]
+    rep.check(bool(st) and bool(rc), 'R08.14', 'FixVariablePS::execute', f.where(), 'sign of r[m_j] consulted',
+              'the status of the fixed variable is chosen from the position of the value alone: with bounds that agree only within the tolerance it is always ON_LOWER, also with a '
+              'reduced cost of the wrong sign (dual infeasible postsolved basis)')
+
+
+_c08a = RULES.get('C08')
+
+
+def _c08(fb, rep):
+    if _c08a:
+        _c08a(fb, rep)
+    c08(fb, rep)
+
+
+RULES['C08'] = _c08
